@@ -113,12 +113,16 @@ class MustFlow:
                 f = self.facts_of_expr(it.context_expr, f)
             return self.block(s.body, f)
         if isinstance(s, ast.Return):
-            self.facts_of_expr(s.value, facts)
+            f = self.facts_of_expr(s.value, facts)
+            if getattr(self, "ret_facts", None) is not None:
+                self.ret_facts.append(f)
             return TOP
         if isinstance(s, ast.Raise):
             self.facts_of_expr(s.exc, facts)
             return TOP
         if isinstance(s, ast.Continue):
+            if getattr(self, "cont_stack", None):
+                self.cont_stack[-1].append(facts)
             return TOP
         if isinstance(s, ast.Break):
             if self.loop_stack:
@@ -134,6 +138,39 @@ class MustFlow:
         k = self.kill(s)
         g = self.gen(s)
         return frozenset((f - k) | g)
+
+
+def exit_facts(fn, gen):
+    """facts established on EVERY path from entry of fn to a normal exit (return or end of body); TOP if it never returns normally"""
+    mf = MustFlow(gen)
+    mf.ret_facts = []
+    out = mf.run(fn)
+    for r in mf.ret_facts:
+        out = meet(out, r)
+    return out
+
+
+def back_edge_facts(loop, gen):
+    """facts that hold on EVERY path through the body of `loop` that reaches the back edge (normal end of the body or a
+    `continue` of this loop); TOP when no path does (the body always leaves the loop)"""
+    mf = MustFlow(gen)
+    mf.loop_stack = [[]]
+    mf.cont_stack = [[]]
+    real_stmt = mf.stmt
+
+    def stmt(s, facts):
+        if isinstance(s, (ast.For, ast.AsyncFor, ast.While)):
+            mf.cont_stack.append([])       # a nested loop's `continue` is not ours
+            try:
+                return real_stmt(s, facts)
+            finally:
+                mf.cont_stack.pop()
+        return real_stmt(s, facts)
+    mf.stmt = stmt
+    out = mf.block(loop.body, frozenset())
+    for c in mf.cont_stack[0]:
+        out = meet(out, c)
+    return out
 
 
 def call_name(node):
